@@ -1,6 +1,16 @@
 """db_impl.c monitor family: the REAL ldb_do_compaction_work (harness/dbimpl/compact.c).
-compaction_obls(prefix) returns the list of Obl; used by C01 (c), C06 (b), C14 (c),
-C02 (g), C13 (c)."""
+
+compaction_obls(prefix) returns the list of Obl.  One harness decides, on the
+same run of the real code, the compaction parts of
+  C01.c / C06.b  (drop rule: every view at or above smallest_snapshot unchanged),
+  C14.c          (outputs sorted, contiguous, bounds recorded == first/last key),
+  C13.c          (output numbers pending before the file exists, fresh, erased by cleanup),
+  C02.g          (create -> adds -> finish -> sync -> close -> re-open, errors never installed),
+  C09/C12 bits   (broadcast after the imm flush, failed compaction latches bg_error).
+want= selects a subset by configuration name (regex) for properties that only
+need some of them."""
+import re
+
 from vp import Obl
 
 KIT = ["vp_nondet.c", "vp_mem.c", "vp_alloc_d4.c"]
@@ -11,10 +21,12 @@ FUNCS = ["ldb_do_compaction_work", "ldb_open_compaction_output_file", "ldb_finis
          "ldb_install_compaction_results", "ldb_cleanup_compaction", "ldb_record_background_error",
          "ldb_cstate_create", "ldb_cstate_destroy", "ldb_cstate_top", "ldb_output_create", "ldb_output_destroy",
          "ldb_stats_init", "ldb_stats_add", "ldb_snaplist_empty", "ldb_snaplist_oldest", "ldb_user_comparator",
-         "ldb_pkey_import", "ldb_ikey_init", "ldb_ikey_copy", "ldb_ikey_clear", "ldb_buffer_set", "ldb_buffer_grow",
-         "ldb_buffer_copy", "ldb_buffer_clear", "ldb_vector_push", "ldb_vector_top", "ldb_vector_grow",
-         "ldb_iter_create", "ldb_iter_destroy", "slice_compare"]
+         "ldb_pkey_import", "ldb_ikey_init", "ldb_ikey_copy", "ldb_ikey_clear", "ldb_buffer_init", "ldb_buffer_set",
+         "ldb_buffer_grow", "ldb_buffer_copy", "ldb_buffer_clear", "ldb_vector_init", "ldb_vector_push",
+         "ldb_vector_top", "ldb_vector_grow", "ldb_vector_clear", "ldb_iter_create", "ldb_iter_destroy",
+         "slice_compare"]
 
+# call sites through function pointers (DESIGN R8); the restriction itself is asserted by CBMC
 FP = ["ldb_do_compaction_work.function_pointer_call.1/vp_in_first",
       "ldb_do_compaction_work.function_pointer_call.2/vp_in_valid",
       "ldb_do_compaction_work.function_pointer_call.3/vp_in_key",
@@ -28,38 +40,98 @@ FP = ["ldb_do_compaction_work.function_pointer_call.1/vp_in_first",
       "ldb_iter_clear.function_pointer_call.2/cleanup_iter_state",
       "ldb_iter_clear.function_pointer_call.3/cleanup_iter_state"]
 
+DESC = ("one real ldb_do_compaction_work() + ldb_cleanup_compaction() over a symbolic sorted input, real snapshot list, "
+        "symbolic base-level / stop / size oracles: (C01.c/C06.b) for every S >= smallest_snapshot (read by the real code from "
+        "the oldest snapshot, else last_sequence) and every key, newest entry <= S over outputs+deeper == over inputs+deeper; "
+        "an entry is dropped iff a newer entry of its key is <= smallest_snapshot or it is a tombstone <= smallest_snapshot at "
+        "the base level; (C14.c) outputs strictly sorted, contiguous runs cut exactly where the stop oracle / size limit says, "
+        "smallest/largest/size/number/level+1 reported to the edit == first/last key added etc.; (C13.c) number in "
+        "pending_outputs before the file is created, fresh, increasing, erased by cleanup; (C02.g) every installed output "
+        "create->adds->finish->sync->close->re-open all successful and in order, first error returned, nothing installed and "
+        "bg_error latched after an error or shutdown; mutex released for iterator/builder/file work, held for numbers, "
+        "pending set, statistics, install, and on return")
 
-def _one(prefix, n, snaps=2, faults=1, imm=0, env=1, nofree=0, ptr=1, seqbits=56, tier="quick", timeout=600):
+
+def _cap(n):
     cap = 1
-    while cap < n:
+    while cap < max(n, 1):
         cap = (cap * 3) // 2 + (1 if cap <= 1 else 0)   # growth policy of util/vector.c
-    defs = {"VP_N": n, "VP_SNAPS": snaps, "VP_FAULTS": faults, "VP_IMM": imm, "VP_ENV": env, "VP_VEC_CAP": cap, "VP_NOFREE": nofree, "VP_SEQBITS": seqbits}
-    name = "%s.compaction-n%d-snaps%d-faults%d-imm%d-env%d%s" % (prefix, n, snaps, faults, imm, env, ("-nofree" if nofree else "") + ("" if ptr else "-noptr") + ("" if seqbits == 56 else "-seq%d" % seqbits))
+    return cap
+
+
+def _one(prefix, n, snaps=2, faults=1, imm=0, env=1, nofree=0, ptr=1, level=1, tier="quick", timeout=600):
+    defs = {"VP_N": n, "VP_SNAPS": snaps, "VP_FAULTS": faults, "VP_IMM": imm, "VP_ENV": env,
+            "VP_VEC_CAP": _cap(n), "VP_NOFREE": nofree, "VP_LEVEL": level}
+    name = "%s.compaction-n%d-snaps%d-faults%d-imm%d-env%d-L%d%s%s" % (
+        prefix, n, snaps, faults, imm, env, level, "-nofree" if nofree else "", "" if ptr else "-noptr")
     uw = {"memcpy.0": 10, "memcmp.0": 2,
           "ldb_do_compaction_work.0": n + 1, "ldb_do_compaction_work.1": 2, "ldb_do_compaction_work.2": 3,
           "ldb_do_compaction_work.3": n + 1, "ldb_install_compaction_results.0": n + 1,
           "ldb_cleanup_compaction.0": n + 1, "ldb_cstate_destroy.0": n + 1}
+    bounds = ("%d input entries over <=2 symbolic 1-byte user keys, symbolic 56-bit sequences (strictly decreasing per key), "
+              "symbolic types, 1-byte symbolic values; 0..%d held snapshots (symbolic, sorted, <= last_sequence); symbolic "
+              "deeper-data bit + conservative base-level answer per key; symbolic stop-before answer per entry and size-limit "
+              "hit per add; %s; %s; %s; compaction level %d; final output sizes 1..256 in disjoint bit fields; %s"
+              % (n, snaps,
+                 "every builder/file/iterator/install call may fail, the input iterator may fail and stop at any position, shutdown at any position" if faults else "no I/O errors, no shutdown",
+                 "an immutable memtable appears at a symbolic position (ldb_compact_memtable's body removed, effect applied at the broadcast)" if imm else "no immutable memtable",
+                 "other threads publish sequences at every lock/unlock and release/take snapshots at the first unlock" if env else "no interference",
+                 level,
+                 "CBMC pointer checks on" if ptr else "CBMC pointer checks off (functional assertions, bounds and overflow checks only); ldb_free is a no-op"))
     return Obl(name, "dbimpl/compact.c", real=REAL, include_real=INC_REAL, kit=KIT, defs=defs,
                unwind=max(n + 3, 10), unwindset=uw, restrict_fp=FP,
-               remove_bodies=["ldb_compact_memtable"],
+               remove_bodies=["ldb_compact_memtable"] if imm else [],
                tier=tier, timeout=timeout, functions=FUNCS,
                flags=["--slice-formula"] + ([] if ptr else ["--no-pointer-check", "--no-pointer-primitive-check"]),
                no_flags=[] if ptr else ["--pointer-overflow-check"],
-               desc="TODO", bounds="TODO")
+               replay=not imm,   # the native build would run the real ldb_compact_memtable
+               desc=DESC, bounds=bounds)
 
 
-def compaction_obls(prefix):
+# (n, snaps, faults, imm, env, nofree, ptr, level, tier)
+CONFIGS = (
+    (0, 1, 1, 0, 1, 0, 1, 0, "quick"),
+    (1, 2, 1, 0, 1, 0, 1, 5, "quick"),
+    (2, 2, 1, 0, 1, 0, 1, 1, "quick"),
+    (2, 1, 1, 1, 1, 0, 1, 2, "quick"),
+    (3, 2, 0, 0, 1, 0, 1, 3, "quick"),
+    (3, 2, 1, 0, 1, 1, 0, 0, "quick"),
+    (4, 2, 0, 0, 1, 1, 0, 4, "quick"),
+    (3, 2, 1, 0, 1, 0, 1, 1, "thorough"),
+    (3, 2, 1, 1, 1, 1, 0, 1, "thorough"),
+    (4, 2, 0, 0, 1, 0, 1, 2, "thorough"),
+    (4, 2, 1, 0, 1, 1, 0, 1, "thorough"),
+    (5, 2, 0, 0, 1, 1, 0, 1, "thorough"),
+)
+
+
+def compaction_obls(prefix, want=None, tiers=("quick", "thorough")):
     out = []
-    for n in (1, 2, 3, 4):
-        for faults in (0, 1):
-            for env in (0, 1):
-                out.append(_one(prefix, n, faults=faults, env=env))
-    out.append(_one(prefix, 2, imm=1))
-    out.append(_one(prefix, 3, faults=0, nofree=1))
-    out.append(_one(prefix, 4, faults=0, nofree=1))
-    out.append(_one(prefix, 3, faults=0, nofree=1, ptr=0))
-    out.append(_one(prefix, 4, faults=0, nofree=1, ptr=0))
-    out.append(_one(prefix, 4, faults=0, nofree=1, ptr=0, seqbits=16))
-    out.append(_one(prefix, 5, faults=0, nofree=1, ptr=0))
-    out.append(_one(prefix, 3, faults=1, nofree=1, ptr=0))
+    for (n, snaps, faults, imm, env, nofree, ptr, level, tier) in CONFIGS:
+        if tier not in tiers:
+            continue
+        o = _one(prefix, n, snaps=snaps, faults=faults, imm=imm, env=env, nofree=nofree, ptr=ptr, level=level,
+                 tier=tier, timeout=600 if tier == "quick" else 1800)
+        if want is not None and not re.search(want, o.name):
+            continue
+        out.append(o)
     return out
+
+
+META_FRAGMENT = {
+    "bounds": ["ldb_do_compaction_work: <=5 input entries (quick: <=4) over <=2 one-byte user keys, symbolic 56-bit sequences, "
+               "types and 1-byte values; 0..2 held snapshots; symbolic deeper-data bit per key; arbitrary output cuts "
+               "(symbolic stop-before answers and size-limit hits); every I/O call failing / shutdown / imm hand-over at any "
+               "position for <=4 entries (quick: <=3)"],
+    "outside": ["more than 5 entries / 2 user keys per compaction; long keys and values; malformed internal keys in the input "
+                "(kept verbatim by the 'do not hide error keys' branch, not exercised); the real ldb_inputiter_create / merging "
+                "iterator (C07), the real ldb_compaction_is_base_level_for_key (C01.d) and should_stop_before, the real table "
+                "builder (C16) and ldb_versions_apply (C02.d/C17) under the compaction; ldb_compact_memtable inside the "
+                "compaction loop (body removed; decided by the flush obligations); real thread schedules"],
+    "models": ["harness/dbimpl/compact.c: input iterator over a sorted symbolic array (fails/stops at a symbolic position), "
+               "oracle stubs for base-level and stop-before (checked to be consulted once per key, in order), recorder stubs "
+               "for table builder / output file / table-cache re-open / version edit / versions_apply, array model of "
+               "rb_set64 for pending_outputs, world.h ghost mutex with interference at every lock/unlock",
+               "kit/vp_alloc_d4.c (malloc never fails; byte buffers sized once; typed pointer slab for ldb_vector_t; "
+               "ldb_free a no-op in the -nofree configurations)", "kit/vp_mem.c byte loops"],
+}
